@@ -4,7 +4,6 @@ import (
 	"fmt"
 	"os"
 	"runtime"
-	"sort"
 	"strings"
 	"sync/atomic"
 	"time"
@@ -22,8 +21,9 @@ func init() { runners["C08"] = runC08 }
 //   oracle      : the spellings of one tree (fewest parentheses, fully parenthesised, spacing and quote
 //                 variants) do not all parse to the same tree / print the same value / fail alike; the
 //                 value differs between syntactic positions; a panic or a hang anywhere.
-// Known quirks of the engine (stream quirk and trees with the negative-zero or include-comma side
-// condition) are recorded in the notes and the histogram, not reported.
+// Stream regress: witnesses of repaired defects, the demanded output or a failure. Stream known:<class>: the
+// listed known finding, reported as Kind "known" only when the engine shows exactly the predicted wrong
+// behaviour. Nothing is recorded silently.
 
 func c08Ctx() map[string]interface{} {
 	return map[string]interface{}{
@@ -109,6 +109,10 @@ func c08PositionTable() []c08Pos {
 		{"if", func(e string) string { return "{% if " + e + " %}T{% else %}F{% endif %}" }, truth, "if "},
 		{"elseif", func(e string) string { return "{% if false %}X{% elseif " + e + " %}T{% else %}F{% endif %}" }, truth, "elseif "},
 		{"include-with", func(e string) string { return "{% include 'inc' with {'v': " + e + " } %}" }, pr, "include-var:v "},
+		{"include-with-only", func(e string) string { return "{% include 'inc' with {'v': " + e + " } only %}" }, pr, "include-var:v "},
+		{"include-with-shadow", func(e string) string {
+			return "{% include 'inc' with {'i5': 'S', 's': 0, 'yes': 0, 'l': 'L', 'v': " + e + " , 'i3': 'S', 'no': 1, 'm': 2} %}"
+		}, pr, "include-var:v "},
 		{"filter-arg", func(e string) string { return "{{ nothing|default(" + e + ") }}" }, pr, "print "},
 		{"function-arg", func(e string) string { return "{{ vid(" + e + ") }}" }, pr, "print "},
 		{"macro-arg", func(e string) string { return "{% macro mq(p) %}{{ p }}{% endmacro %}{{ mq(" + e + ") }}" }, pr, "print "},
@@ -162,14 +166,6 @@ func runC08(cases string, res *Result) {
 	var current atomic.Value
 	current.Store(Case{})
 	c08MemoryGuard(res, &current)
-	notes := map[string]int{}
-	noteEx := map[string]string{}
-	note := func(k, example string) {
-		notes[k]++
-		if _, ok := noteEx[k]; !ok {
-			noteEx[k] = example
-		}
-	}
 	positions := c08PositionTable()
 	n := 0
 	readCases(cases, func(c Case) {
@@ -183,32 +179,26 @@ func runC08(cases string, res *Result) {
 				c08Malformed(c, res)
 			case "lexbytes", "lexfixed":
 				c08Lex(c, res)
-			case "quirk":
-				c08Quirk(c, res, note)
+			case "regress":
+				c08Regress(c, res)
 			default:
-				c08TreeCase(c, res, positions, note)
+				if strings.HasPrefix(stream, "known:") {
+					c08Known(c, res, strings.TrimPrefix(stream, "known:"))
+				} else {
+					c08TreeCase(c, res, positions)
+				}
 			}
 		})
 		if !ok {
 			res.add(Finding{Kind: "oracle", Where: "timeout", Case: c, Detail: "no answer within 20 s (hang)"})
 		}
 	})
-	keys := make([]string, 0, len(notes))
-	for k := range notes {
-		keys = append(keys, k)
-	}
-	sort.Strings(keys)
-	for _, k := range keys {
-		res.Notes = append(res.Notes, fmt.Sprintf("%s: %d case(s), e.g. %s", k, notes[k], noteEx[k]))
-		res.Hist["note:"+k] = notes[k]
-	}
 }
 
-func c08TreeCase(c Case, res *Result, positions []c08Pos, note func(string, string)) {
+func c08TreeCase(c Case, res *Result, positions []c08Pos) {
 	sexp := c.str("sexp")
 	nt, _ := c["nt"].(bool)
 	listy, _ := c["listy"].(bool)
-	parenComma, _ := c["paren_comma"].(bool)
 	res.count(sexp, nt)
 	for _, k := range c.list("kinds") {
 		if s, ok := k.(string); ok {
@@ -305,55 +295,34 @@ func c08TreeCase(c Case, res *Result, positions []c08Pos, note func(string, stri
 	}
 	res.Hist["print-outcome:"+outs[0].cls]++
 
-	// ---- 3. reference value. A difference from the reference evaluator is a failure, unless the
-	// model of the engine's known quirks (Model/ExprEvalImpl.v) predicts exactly the observed text: then it
-	// is recorded under the quirk's name.
+	// ---- 3. reference value: a difference from the reference evaluator is a failing input of the property.
+	// When the model of the engine's arithmetic (Model/ExprEvalImpl.v, which follows the shapes recorded in
+	// Gen/EvalShape.v and Gen/ArithShape.v) predicts the observed text, the detail says so.
 	spec, _ := c["spec"].(map[string]interface{})
 	sk, _ := spec["k"].(string)
 	impl, _ := c["impl"].(map[string]interface{})
 	ik, _ := impl["k"].(string)
-	fzQuirk, _ := c["fz_quirk"].(bool)
-	const fzName = "quirk float-zero-is-true (toBool compares a float64 with the int 0: a computed zero counts as true in and / or / not / ?: / if)"
-	// the quirk model leaves its fragment although the reference does not: a computed zero was taken for
-	// true and evaluation went on into an operand the reference never evaluates
-	diverted := fzQuirk && ik == "none"
-	quirkName := func(want, got string) string {
-		if strings.ReplaceAll(got, "-0", "0") == strings.ReplaceAll(want, "-0", "0") {
-			return "quirk negative-zero (an integer zero computed from a negative operand prints as -0)"
+	implNote := func(o c08Out) string {
+		if ik == "val" && o.cls == "none" && o.out == unhex(impl["text"].(string)) {
+			return " (the observed text is what binary64 arithmetic with the extracted toBool / plusZero shapes gives)"
 		}
-		return "quirk float-zero-is-true (toBool compares a float64 with the int 0: a computed zero counts as true in and / or / not / ?: / if)"
+		return ""
 	}
 	switch sk {
 	case "val":
 		want := unhex(spec["text"].(string))
 		res.Hist["spec:value"]++
 		if outs[0].cls != "none" || outs[0].out != want {
-			if ik == "val" && outs[0].cls == "none" && outs[0].out == unhex(impl["text"].(string)) {
-				note(quirkName(want, outs[0].out), "{{ "+vs[0].src+" }} => "+outs[0].out+", the reference value prints as "+want)
-			} else if diverted {
-				note(fzName+" [evaluation continues into an operand the reference does not evaluate]", "{{ "+vs[0].src+" }} => "+outs[0].String()+", the reference value prints as "+want)
-			} else if ik == "err" && outs[0].cls == "render" {
-				note("quirk float-zero-is-true (toBool compares a float64 with the int 0: a computed zero counts as true in and / or / not / ?: / if)", "{{ "+vs[0].src+" }} fails, the reference value prints as "+want)
-			} else {
-				res.add(Finding{Kind: "disagreement", Where: "value-vs-spec", Case: c, Expected: "value " + fmt.Sprintf("%q", want), Observed: outs[0].String(),
-					Detail: "{{ " + vs[0].src + " }} does not print the value the reference evaluator Spec.ExprEval gives for the tree"})
-				return
-			}
-		} else if ik == "val" && unhex(impl["text"].(string)) != want {
-			note("quirk no longer observed (the engine prints the reference value where the quirk model predicts another)", "{{ "+vs[0].src+" }} => "+outs[0].out)
+			res.add(Finding{Kind: "disagreement", Where: "value-vs-spec", Case: c, Expected: "value " + fmt.Sprintf("%q", want), Observed: outs[0].String(),
+				Detail: "{{ " + vs[0].src + " }} does not print the value the reference evaluator Spec.ExprEval gives for the tree" + implNote(outs[0])})
+			return
 		}
 	case "err":
 		res.Hist["spec:error"]++
 		if outs[0].cls == "none" {
-			if ik == "val" && outs[0].out == unhex(impl["text"].(string)) {
-				note("quirk float-zero-is-true (toBool compares a float64 with the int 0: a computed zero counts as true in and / or / not / ?: / if)", "{{ "+vs[0].src+" }} => "+outs[0].out+", the reference evaluation divides by zero")
-			} else if diverted {
-				note(fzName+" [evaluation continues into an operand the reference does not evaluate]", "{{ "+vs[0].src+" }} => "+outs[0].String()+", the reference evaluation divides by zero")
-			} else {
-				res.add(Finding{Kind: "disagreement", Where: "value-vs-spec", Case: c, Expected: "error", Observed: outs[0].String(),
-					Detail: "{{ " + vs[0].src + " }} printed a value where the reference evaluator has a division or modulo by zero"})
-				return
-			}
+			res.add(Finding{Kind: "disagreement", Where: "value-vs-spec", Case: c, Expected: "error", Observed: outs[0].String(),
+				Detail: "{{ " + vs[0].src + " }} printed a value where the reference evaluator has a division or modulo by zero" + implNote(outs[0])})
+			return
 		}
 	default:
 		res.Hist["spec:outside-fragment"]++
@@ -364,13 +333,9 @@ func c08TreeCase(c Case, res *Result, positions []c08Pos, note func(string, stri
 		o := c08Render("{% if " + vs[0].src + " %}T{% else %}F{% endif %}")
 		res.Evaluations++
 		if o.cls != "none" || o.out != truth {
-			if it := c.str("impl_truth"); (o.cls == "none" && it == o.out) || (diverted && it == "") {
-				note("quirk float-zero-is-true (toBool compares a float64 with the int 0: a computed zero counts as true in and / or / not / ?: / if)", "{% if "+vs[0].src+" %} takes the "+o.out+" branch, the reference value is "+truth)
-			} else {
-				res.add(Finding{Kind: "disagreement", Where: "truth-vs-spec", Case: c, Expected: truth, Observed: o.String(),
-					Detail: "{% if " + vs[0].src + " %} does not take the branch the reference evaluator gives"})
-				return
-			}
+			res.add(Finding{Kind: "disagreement", Where: "truth-vs-spec", Case: c, Expected: truth, Observed: o.String(),
+				Detail: "{% if " + vs[0].src + " %} does not take the branch the reference evaluator gives"})
+			return
 		}
 	}
 
@@ -424,15 +389,6 @@ func c08TreeCase(c Case, res *Result, positions []c08Pos, note func(string, stri
 			return true
 		}
 		for _, p := range positions {
-			if p.name == "include-with" && parenComma {
-				got := get(p.tpl(v.src))
-				if got.cls == "parse" && base.cls != "parse" {
-					note("quirk include-with splits at commas inside parentheses (tokenizeObjectContents does not track parentheses)", p.tpl(v.src)+" is a parse error although {{ "+v.src+" }} is not")
-				} else if !check(p.name, p.tpl(v.src), p.ref(v.src), p.tag) {
-					return
-				}
-				continue
-			}
 			if !check(p.name, p.tpl(v.src), p.ref(v.src), p.tag) {
 				return
 			}
@@ -442,7 +398,7 @@ func c08TreeCase(c Case, res *Result, positions []c08Pos, note func(string, stri
 				return
 			}
 		}
-		if sk == "val" && ik == "val" && spec["text"] == impl["text"] && base.cls == "none" && isDecimal(base.out) {
+		if sk == "val" && base.cls == "none" && isDecimal(base.out) {
 			if !check("function-arg-max", c08MaxTpl(v.src), "{{ "+v.src+" }}", "print ") {
 				return
 			}
@@ -520,26 +476,36 @@ func c08Lex(c Case, res *Result) {
 	}
 }
 
-// known quirks: the property demands `demanded`; the engine is known to answer `known` (an output or
-// "error"). The demanded answer means the quirk is repaired, the known answer is recorded, anything else
-// is a failure.
-func c08Quirk(c Case, res *Result, note func(string, string)) {
+// witnesses of repaired defects: the demanded output, or a failure
+func c08Regress(c Case, res *Result) {
 	tpl := c.hexs("tpl")
-	class := c.str("class")
 	demanded := c.hexs("demanded")
-	known := c.str("known")
-	res.count("quirk:"+tpl, false)
+	res.count("regress:"+tpl, false)
+	o := c08Render(tpl)
+	res.Evaluations++
+	if o.cls != "none" || o.out != demanded {
+		kind := "oracle"
+		res.add(Finding{Kind: kind, Where: "regress", Case: c, Expected: fmt.Sprintf("%q", demanded), Observed: o.String() + " " + o.msg,
+			Detail: "a template that a repaired defect used to break does not print what the property demands: " + tpl})
+	}
+}
+
+// the listed known finding: reported as known only when the engine shows exactly the predicted wrong
+// behaviour (a parse-class error); the demanded output means it is repaired; anything else is a failure
+func c08Known(c Case, res *Result, class string) {
+	tpl := c.hexs("tpl")
+	demanded := c.hexs("demanded")
+	res.count("known:"+tpl, false)
 	o := c08Render(tpl)
 	res.Evaluations++
 	switch {
-	case o.cls == "panic":
-		res.add(Finding{Kind: "oracle", Where: "quirk:" + class, Case: c, Observed: o.msg, Detail: "panic while rendering " + tpl})
 	case o.cls == "none" && o.out == demanded:
-		note("quirk "+class+" no longer observed", tpl+" => "+o.out)
-	case (known == "error" && o.cls != "none") || (known != "error" && o.cls == "none" && o.out == unhex(known)):
-		note("quirk "+class, tpl+" => "+o.String()+", the property asks for "+fmt.Sprintf("%q", demanded))
+		// repaired: nothing to report
+	case o.cls == "parse" && c.str("predicted") == "parse-error":
+		res.add(Finding{Kind: "known", Known: class, Where: "render", Case: c, Expected: fmt.Sprintf("%q", demanded), Observed: o.String(),
+			Detail: tpl + " is a parse error: the scanner ends the tag at the first closer, also inside a string literal or between two closing braces"})
 	default:
-		res.add(Finding{Kind: "oracle", Where: "quirk:" + class, Case: c, Expected: fmt.Sprintf("%q", demanded), Observed: o.String(),
-			Detail: "neither the demanded value nor the recorded behaviour of this quirk: " + tpl})
+		res.add(Finding{Kind: "oracle", Where: "known:" + class, Case: c, Expected: fmt.Sprintf("%q", demanded), Observed: o.String() + " " + o.msg,
+			Detail: "neither the demanded output nor the listed known behaviour: " + tpl})
 	}
 }
